@@ -40,10 +40,14 @@ static int readAll(void *p, size_t n) {
   return 1;
 }
 
+/* the protocol uses a private copy of the original stdout; descriptor 1 is pointed at stderr so that
+   messages the library prints (fmt.Println in a kernel) cannot get into the protocol stream */
+static int outfd = 1;
+
 static void writeAll(const void *p, size_t n) {
   size_t done = 0;
   while (done < n) {
-    ssize_t r = write(1, (const char *)p + done, n - done);
+    ssize_t r = write(outfd, (const char *)p + done, n - done);
     if (r <= 0) exit(3);
     done += (size_t)r;
   }
@@ -83,6 +87,8 @@ static void gfree(gbuf *g) { munmap(g->region, g->total); }
 
 int main(int argc, char **argv) {
   if (argc < 2) return 2;
+  outfd = dup(1);
+  if (outfd < 0 || dup2(2, 1) < 0) return 2;
   void *h = dlopen(argv[1], RTLD_NOW);
   if (!h) {
     fprintf(stderr, "dlopen: %s\n", dlerror());
